@@ -44,7 +44,7 @@ func serveTLSNamed(t hx.TB) net.Listener {
 					name = chi.ServerName
 					return &tls.Config{Certificates: []tls.Certificate{upstreamCert}}, nil
 				}})
-				_ = tc.SetDeadline(time.Now().Add(30 * time.Second))
+				_ = tc.SetDeadline(time.Now().Add(120 * time.Second))
 				if err := tc.Handshake(); err != nil {
 					return
 				}
